@@ -90,7 +90,7 @@ FLOORS = {
                            "cache_content_checks": 90000, "cache_order_checks": 60000,
                            "reload_in_full_cache": 270, "fs_reload_mtime_backwards": 300,
                            "exec_bcc_cold": 3500, "exec_bcc_warm": 3500, "exec_bcc_fswarm": 800,
-                           "bytecode_hits": 4500, "lookup_of_changed_bytecode_loaded": 1}},
+                           "bytecode_hits": 4500, "lookup_of_changed_bytecode_loaded": 160}},
     "thorough": {"evaluations": 650000, "distinct": 12000,
                  "counters": {"lookups": 1700000, "loader_calls": 1400000,
                               "served_from_cache": 280000, "reload_of_cached": 13000,
